@@ -24,7 +24,7 @@ pub enum SchedErr {
 }
 
 enum Chooser {
-    Gen { kind: SchedKind, rng: Rng, points: BTreeSet<usize> },
+    Gen { kind: SchedKind, rng: Rng, points: BTreeSet<usize>, prio: BTreeMap<usize, i64>, low: i64 },
     Explicit { choices: Vec<u8> },
 }
 
@@ -75,7 +75,12 @@ impl Sched {
                         points.insert(rng.usize_below((*horizon).max(1) as usize));
                     }
                 }
-                Chooser::Gen { kind: *kind, rng, points }
+                if let SchedKind::Pct { depth, horizon } = kind {
+                    for _ in 0..*depth {
+                        points.insert(rng.usize_below((*horizon).max(1) as usize));
+                    }
+                }
+                Chooser::Gen { kind: *kind, rng, points, prio: BTreeMap::new(), low: 0 }
             }
             Schedule::Explicit { choices } => Chooser::Explicit { choices: choices.clone() },
         };
@@ -117,14 +122,34 @@ impl Sched {
             .collect()
     }
 
-    fn draw(g: &mut Inner) -> u8 {
+    fn draw(g: &mut Inner, ready: &[usize], me: Option<usize>) -> u8 {
         let idx = g.recorded.len();
         let c = if idx >= MAX_CHOICES {
             0
         } else {
             match &mut g.chooser {
                 Chooser::Explicit { choices } => choices.get(idx).copied().unwrap_or(0),
-                Chooser::Gen { kind, rng, points } => match kind {
+                Chooser::Gen { kind, rng, points, prio, low } => match kind {
+                    SchedKind::Pct { .. } => {
+                        for t in ready {
+                            if !prio.contains_key(t) {
+                                let p = 1 + (rng.next() >> 2) as i64;
+                                prio.insert(*t, p);
+                            }
+                        }
+                        if points.contains(&idx) {
+                            if let Some(m) = me {
+                                *low -= 1;
+                                prio.insert(m, *low);
+                            }
+                        }
+                        let best = ready.iter().enumerate().max_by_key(|(_, t)| prio.get(t).copied().unwrap_or(0)).map(|(i, _)| i).unwrap_or(0);
+                        if Some(ready[best]) == me {
+                            0
+                        } else {
+                            (1 + best).min(255) as u8
+                        }
+                    }
                     SchedKind::Uniform => 1 + rng.below(255) as u8,
                     SchedKind::Sticky { switch } => {
                         if (rng.below(256) as u8) < *switch {
@@ -159,7 +184,7 @@ impl Sched {
         let next = if ready.len() == 1 {
             ready[0]
         } else {
-            let c = Self::draw(g);
+            let c = Self::draw(g, &ready, me);
             if c == 0 {
                 if me_ready {
                     me.unwrap()
